@@ -1,8 +1,10 @@
 //! Correspondence harness: generates cases, runs the real kitoken code in-process and writes
 //! `OP args :: implementation answer` lines for the Lean driver.
+mod c08;
 mod c13;
 mod defs;
 mod gen;
+mod parse;
 mod rng;
 mod sink;
 mod smoke;
@@ -10,13 +12,14 @@ mod util;
 
 use std::io::Write;
 
-/// Recomputes the implementation's answer for one request line; `None` if the op is unknown.
-/// Lines that only set driver state (DEF …) are passed through unchanged.
-fn run_line(state: &mut (), request: &str) -> Option<String> {
-    let _ = state;
+/// Recomputes the implementation's answer for one request line: `(request, answer)`; the request
+/// may be rewritten (fresh oracle table). An empty answer marks a state-only line (DEF …).
+fn run_line(state: &mut parse::RunState, request: &str) -> Option<(String, String)> {
     let words: Vec<&str> = request.split(' ').filter(|w| !w.is_empty()).collect();
     match words.first().copied() {
-        Some("PROC") => c13::run_request(&words),
+        Some("PROC") => c13::run_request(&words).map(|a| (request.to_string(), a)),
+        Some("DEF") => parse::run_def(state, &words).map(|a| (request.to_string(), a)),
+        Some("ENC") | Some("DEC") | Some("BPE") | Some("UNI") | Some("WP") => parse::run_encdec(state, &words),
         _ => None,
     }
 }
@@ -37,6 +40,7 @@ fn main() {
             let mut rng = rng::Rng::new(seed);
             let mut out = sink::Sink::new(shards);
             match prop {
+                "C08" => c08::gen(&mut rng, thorough, &mut out),
                 "C13" => c13::gen(&mut rng, thorough, &mut out),
                 "SMOKE" => smoke::gen(&mut rng, thorough, &mut out),
                 _ => {
@@ -49,7 +53,7 @@ fn main() {
         "run" => {
             let text = std::fs::read_to_string(&args[2]).expect("read");
             let mut f = std::io::BufWriter::new(std::fs::File::create(&args[3]).expect("create"));
-            let mut state = ();
+            let mut state = parse::RunState::default();
             for line in text.lines() {
                 let line = line.trim();
                 if line.is_empty() || line.starts_with('#') {
@@ -57,8 +61,8 @@ fn main() {
                 }
                 let request = line.split(" :: ").next().unwrap().trim();
                 match run_line(&mut state, request) {
-                    Some(answer) if answer.is_empty() => writeln!(f, "{}", request).unwrap(),
-                    Some(answer) => writeln!(f, "{} :: {}", request, answer).unwrap(),
+                    Some((request, answer)) if answer.is_empty() => writeln!(f, "{}", request).unwrap(),
+                    Some((request, answer)) => writeln!(f, "{} :: {}", request, answer).unwrap(),
                     None => {
                         eprintln!("cannot run request: {}", request);
                         std::process::exit(3);
